@@ -86,8 +86,10 @@ def _prune(keep):
     except OSError:
         return
     entries.sort(key=lambda d: os.path.getmtime(d), reverse=True)
+    now = time.time()
     for d in entries[MAX_CACHED:]:
-        if d != keep:
+        # a build that was used within the last half hour may belong to a check that is still running
+        if d != keep and now - os.path.getmtime(d) > 1800:
             shutil.rmtree(d, ignore_errors=True)
             try:
                 os.unlink(d + ".lock")
